@@ -233,4 +233,24 @@ theorem full_meets_spec (o : RunOpts) (r : RunIn) (wf : (effective r.call).1.WF 
           rw [h4] at h2
           simp [List.append_assoc, h1, h2, hd]
 
+
+/-! ### text → bytes -/
+
+theorem utf8_encodes_everything (text : Bytes) : encodable .utf8 text = true := by
+  simp [encodable, Codec.canEncode]
+
+theorem emitWith_utf8 (h : Handle) (d : Dir) (text : Bytes) :
+    emitWith .utf8 h d text = ((emit h d text).1, (emit h d text).2, none) := by
+  cases h <;> simp [emitWith, emit, utf8_encodes_everything]
+
+theorem writeToFileIn_eq (env : Env) (r : Results) (h : Handle) (d : Dir) :
+    writeToFileIn env r h d = writeToFile r h d := by
+  unfold writeToFileIn writeToFile
+  simp only [fileCodec, emitWith_utf8]
+
+theorem dumpRecordsIn_eq (env : Env) (rs : List RecSpec) (ress : List ModDict) (h : Handle) (d : Dir) :
+    dumpRecordsIn env rs ress h d = dumpRecords rs ress h d := by
+  unfold dumpRecordsIn dumpRecords
+  simp only [fileCodec, emitWith_utf8]
+
 end ASV.WriteSafety
